@@ -73,6 +73,37 @@ theorem sf1 {P Q : X → Prop} (l : L)
   obtain ⟨j, hij, hlj⟩ := hsf i hio
   exact hno (j + 1) (Nat.le_succ_of_le hij) (hl j (hall j hij) hlj)
 
+
+/-- `P` holds until `Q` does, instant by instant -/
+theorem unless_until {P Q : X → Prop} (hun : ∀ j, P (xs j) → P (xs (j + 1)) ∨ Q (xs (j + 1)))
+    {i : Nat} (hp : P (xs i)) : ∀ k, i ≤ k → P (xs k) ∨ ∃ m, i ≤ m ∧ m ≤ k ∧ Q (xs m) := by
+  intro k hk
+  obtain ⟨d, rfl⟩ := Nat.exists_eq_add_of_le hk
+  clear hk
+  induction d with
+  | zero => exact Or.inl hp
+  | succ d ih =>
+    rcases ih with h | ⟨m, h1, h2, h3⟩
+    · rcases hun (i + d) h with h' | h'
+      · exact Or.inl h'
+      · exact Or.inr ⟨i + d + 1, by omega, by omega, h'⟩
+    · exact Or.inr ⟨m, h1, by omega, h3⟩
+
+/-- SF rule with a recurrence: `R` holds again and again, and the helpful label is enabled wherever `P` and
+    `R` hold together -/
+theorem sf1' {P Q R : X → Prop} (l : L)
+    (hrec : LeadsTo xs (fun _ => True) R)
+    (hen : ∀ j, P (xs j) → R (xs j) → En step l (xs j))
+    (hun : ∀ j, P (xs j) → P (xs (j + 1)) ∨ Q (xs (j + 1)))
+    (hl : ∀ j, P (xs j) → ls j = some l → Q (xs (j + 1)))
+    (hsf : SF step xs ls l) : LeadsTo xs P Q := by
+  refine sf1 l ?_ hun hl hsf
+  intro j hp
+  obtain ⟨k, hjk, hr⟩ := hrec j trivial
+  rcases unless_until hun hp k hjk with h | ⟨m, h1, _, h3⟩
+  · exact ⟨k, hjk, Or.inr (hen k h hr)⟩
+  · exact ⟨m, h1, Or.inl h3⟩
+
 /-- ranking rule: if from every rank `a` the execution gets to `Q` or to a smaller rank (still in `P`), then
     `P` leads to `Q` -/
 theorem leadsTo_wf {α : Type} (r : α → α → Prop) (hwf : WellFounded r) (m : X → α) {P Q : X → Prop}
